@@ -112,7 +112,8 @@ def run_case(prop, case, spec, scratch, stats):
         every = case.get("audit_every", 5)
         ops = case["ops"]
         for i, op in enumerate(ops):
-            lens_before = sut.store_lengths() if "C19" in props else None
+            # (looking at the sizes flushes the files: not before a clear / reopen, see below)
+            lens_before = sut.store_lengths() if "C19" in props and op["op"] not in ("clear", "reopen") else (0, 0)
             new = sut.apply(op)
             for d in new:
                 d["at_op"] = i
